@@ -58,8 +58,11 @@ func genFaultScn(rng *rand.Rand, maxN int, phase time.Duration) faultScn {
 			if !crashed[a] && gone < sc.N-2 {
 				crashed[a] = true
 				kind := "crash"
-				if rng.Intn(4) == 0 {
+				switch rng.Intn(8) {
+				case 0, 1:
 					kind = "hang"
+				case 2:
+					kind = "unreach" // host and route gone: sends towards it fail locally
 				}
 				sc.Actions = append(sc.Actions, faultAction{At: t, Kind: kind, A: a})
 				switch rng.Intn(4) {
